@@ -8,6 +8,21 @@
 //!   copia-replay twin <name> <seed> <budget_s>         -> `CASES n`, `WITNESS {json}` per disagreement
 mod rng;
 mod checksum_w;
+mod glob_w;
+mod twins;
+/// the CLI's modules, #[path]-included unedited from the tree under check
+#[allow(dead_code, unused_imports, clippy::all)]
+pub mod cli {
+    #[path = "../../repo/src/bin/copia/plan.rs"]
+    pub mod plan;
+    #[path = "../../repo/src/bin/copia/reconcile.rs"]
+    pub mod reconcile;
+    #[path = "../../repo/src/bin/copia/transfer.rs"]
+    pub mod transfer;
+    #[path = "../../repo/src/bin/copia/meta.rs"]
+    pub mod meta;
+}
+pub use cli::plan;
 
 use std::env;
 
@@ -42,6 +57,9 @@ fn search(contract: &str, seed: u64, budget: u64) -> i32 {
     if c.ends_with("RollingChecksum::roll") || c.ends_with("RollingChecksum::push") || c.ends_with("RollingChecksum::digest") {
         return checksum_w::search_ops(c.contains("Fast"), seed, budget);
     }
+    if c.ends_with("glob_match") {
+        return glob_w::search(seed, budget);
+    }
     if c.ends_with("FastRollingChecksum::new") {
         return checksum_w::search_ops(true, seed, budget);
     }
@@ -54,6 +72,9 @@ fn run(w: &str) -> i32 {
     match kind.as_str() {
         "checksum-new" => checksum_w::run_new(w),
         "checksum-ops" => checksum_w::run_ops(w),
+        "glob" => glob_w::run(w),
+        "is_excluded" => twins::run_is_excluded(w),
+        "parse_meta" => twins::run_parse_meta(w),
         _ => {
             eprintln!("unknown witness kind {kind}");
             2
@@ -61,9 +82,15 @@ fn run(w: &str) -> i32 {
     }
 }
 
-fn twin(_name: &str, _seed: u64, _budget: u64) -> i32 {
-    println!("CASES 0");
-    0
+fn twin(name: &str, seed: u64, budget: u64) -> i32 {
+    match name {
+        "is_excluded" => twins::is_excluded(seed, budget),
+        "parse_remote_meta_output" => twins::parse_meta(seed, budget),
+        _ => {
+            eprintln!("unknown twin {name}");
+            2
+        }
+    }
 }
 
 /// minimal flat-JSON field readers (no serde dependency needed for the witness formats used here)
